@@ -1126,6 +1126,20 @@ func ruleOwnSock(c *Ctx, a *udpAnchors) {
 							if !isAl || eng.Root(al.Parent()) != m.add {
 								return false
 							}
+							// ... or hands to the insertion helper
+							if m.set != nil {
+								for _, g := range eng.Family(m.add) {
+									for _, cl2 := range eng.Calls(g) {
+										if sc, ok := cl2.(*ssa.Call); ok && callTo(c, sc, m.set) {
+											for _, sa := range sc.Call.Args {
+												if p.AnyFrom(sa, eng.Plain, func(x ssa.Value) bool { return x == ssa.Value(al) }) {
+													return true
+												}
+											}
+										}
+									}
+								}
+							}
 							for _, g := range eng.Family(m.add) {
 								for _, b := range g.Blocks {
 									for _, ins := range b.Instrs {
